@@ -20,9 +20,9 @@ def run(ctx):
     if 'B' in ctx.stages:
         for front, V in (('v2', 'v2two'), ('legacy', 'legacy')):
             cfgp = fc.mc_cfg('fib-B-route-' + front, front, 'tree', 'route', V, 1, 0, 3, R='Rep_all', invs=[], props=[])
-            fc.stage_b(ctx, front, cfgp, 'routing 1 Interest ops<=3 all representations', max_paths=ctx.pick(800, None))
+            fc.stage_b(ctx, front, cfgp, 'routing 1 Interest ops<=3 all representations', max_paths=ctx.pick(800, 15000))
         cfgp = fc.mc_cfg('fib-B-reply', 'v2', 'small', 'reply', 'v2two', ctx.pick(1, 2), 3, 1, reps=2, invs=[], props=[])
-        fc.stage_b(ctx, 'v2', cfgp, 'reply timing', max_paths=ctx.pick(800, None))
+        fc.stage_b(ctx, 'v2', cfgp, 'reply timing', max_paths=ctx.pick(800, 15000))
     if 'C' in ctx.stages:
         for front in ('v2', 'legacy'):
             fc.stage_c(ctx, front, ctx.pick(300, 4000), 40)
